@@ -37,6 +37,8 @@ def is_err(r):
 
 
 def stream_of(w):
+    if w[0] == "long":
+        return [NEG_EBUSY] * int(w[3]) + [reg(w[4])]
     vals = [reg(t) for t in w[3:]]
     return vals * 8 if w[0] == "call" else vals
 
@@ -58,7 +60,7 @@ def judge(case, out):
     at = lambda i: s[i] if i < len(s) else 0
     n = 0
     if name in RETRY_DOC:
-        while at(n) == NEG_EBUSY and n < 63:
+        while at(n) == NEG_EBUSY and n < (63 if w[0] != "long" else len(s)):
             n += 1
     r = at(n)
     o = out.split()
@@ -97,11 +99,20 @@ def judge(case, out):
 
 def sig_of(case, out, why):
     w = case.split()
-    return {"wrapper": w[1] if w[0] in ("call", "seq") else w[0], "kind": why.split(":")[0]}
+    return {"wrapper": w[1] if w[0] in ("call", "seq", "long") else w[0], "kind": why.split(":")[0]}
 
 
 def variants(w):
     return [0, 1] if any("Option<" in p for p in w["params"]) else [0]
+
+
+def neg_variants(w):
+    """the same calls with every signed-integer argument -1 and every bool true (harness VARIANT bit 1)"""
+    import re
+    return [v | 2 for v in variants(w)] if any(re.search(r"\b(i32|i64|bool)\b", p) for p in w["params"]) else []
+
+
+NEG_ERRNOS = [1, 2, 3, 4, 5, 9, 11, 12, 13, 14, 16, 17, 22, 32, 38, 110, 512, 4095]
 
 
 def gen_cases(ctx, meta, errnos):
@@ -117,6 +128,13 @@ def gen_cases(ctx, meta, errnos):
                 extra = [max(0, (1 << k) + d) for k in range(1, 64) for d in (-1, 0, 1)] + [r.below(M64 - 4096) for _ in range(200)]
             for v in SUCCESS + extra:
                 call.append("call %s %d %s" % (w["name"], var, tok(v)))
+        for var in neg_variants(w):
+            for e in (NEG_ERRNOS if ctx.tier == "quick" else errnos):
+                call.append("call %s %d -%d" % (w["name"], var, e))
+            for v in SUCCESS:
+                call.append("call %s %d %s" % (w["name"], var, tok(v)))
+            seq.append("seq %s %d -4 -4 5" % (w["name"], var))
+            seq.append("seq %s %d -16 -4" % (w["name"], var))
         fixed = [[NEG_EBUSY, NEG_EBUSY, 5], [NEG_EBUSY, M64 - 9], [M64 - 4, 0], [M64 - 11, 7], [16, 3], [NEG_EBUSY] * 7 + [16],
                  [2**32 - 16, 1], [NEG_EBUSY] * 20 + [M64 - 1]]
         pool = [NEG_EBUSY, NEG_EBUSY, 16, 0, 5, M64 - 4, M64 - 11, M64 - 4095, M64 - 4096, 2**32 - 16, 2**31 + 16]
@@ -192,6 +210,22 @@ def run(ctx):
     C.correspond(ctx, "idioms", idioms, [exe], drv, judge, sig_of)
     C.correspond(ctx, "forced-result", call, [exe], drv, judge, sig_of)
     C.correspond(ctx, "result-sequences", seq, [exe], drv, judge, sig_of)
+    # long EBUSY runs (beyond the model's fuel): judged by the property's own statement only
+    longs = []
+    for w in callable_:
+        counts = [64, 1000, 9999, 10000, 10001, 65535, 65536, 100000] if w["name"] in RETRY_DOC else [65]
+        for n in counts:
+            for v in ([5, M64 - 9] if w["name"] in RETRY_DOC else [M64 - 9]):
+                longs.append("long %s 0 %d %s" % (w["name"], n, tok(v)))
+    _, louts, _ = C.run_filter([exe], longs, timeout=600)
+    ctx.evaluations += len(longs)
+    ctx.extra.setdefault("streams", {})["long-ebusy-runs (spec oracle only)"] = {"cases": len(longs), "failures": 0}
+    for c, o in zip(longs, louts + ["no-output"] * (len(longs) - len(louts))):
+        why = judge(c, o)
+        if why:
+            ctx.extra["streams"]["long-ebusy-runs (spec oracle only)"]["failures"] += 1
+            ctx.violation(sig_of(c, o, why), {"case": c, "implementation": o, "why": why, "stream": "long-ebusy-runs",
+                                             "how_to_replay": "echo '%s' | %s" % (c, exe)})
     # malformed lines must be rejected by both sides, never defaulted
     bad = ["call nope 0 1", "call unistd::close 0", "call unistd::close x 1", "seq unistd::close 0", "call unistd::close 0 18446744073709551616", "frob"]
     C.correspond(ctx, "malformed", bad, [exe], drv, lambda c, o: None if o == "bad-op" else "malformed line accepted", lambda c, o, why: {"kind": "malformed-accepted"})
